@@ -38,7 +38,9 @@ pub fn heap_bound_a() -> usize {
         .max(size_of::<tls_parser::TlsPlaintext>())
         .max(size_of::<tls_parser::DTLSPlaintext>())
         .max(size_of::<tls_parser::SignedCertificateTimestamp>());
-    4 * m
+    // slope: 16 x the largest returned element type per input byte (today's worst case, a record of
+    // one-byte ChangeCipherSpec messages during Vec doubling, needs about 3 x)
+    16 * m
 }
 
 fn usage() -> ! {
